@@ -76,7 +76,7 @@ struct Explorer {
 
   Explorer(vr::Runner& r, const std::string& nm, const std::string& rl, unsigned depth) : R(r), name(nm), rule(rl), max_depth(depth) {}
 
-  // replay one packed history (used by --replay): every op is applied with checks
+  // replay one packed history (used by --replay)
   int replay(uint64_t id) {
     std::string h = unpack(id);
     vr::Ctx ctx;
@@ -96,7 +96,14 @@ struct Explorer {
         printf("REPLAY-ERROR op %s not enabled at step %zu\n", Sim::op_name(op).c_str(), i);
         return 2;
       }
-      sim.apply(op, ctx, trs[i]);
+      // exactly as in the search: the prefix is replayed quietly, the oracle runs on the last operation
+      if (i + 1 < hlen(h)) {
+        vr::Ctx quiet;
+        quiet.replay = true;
+        quiet.quiet = true;
+        sim.apply(op, quiet, trs[i]);
+      } else
+        sim.apply(op, ctx, trs[i]);
       printf("  after %-40s key=%s\n", Sim::op_name(op).c_str(), sim.key().substr(0, 300).c_str());
       fflush(stdout);
     }
